@@ -16,7 +16,7 @@ import traceback
 from .ctx import Res, jsonable
 
 
-class Horizon(Exception):
+class Horizon(BaseException):      # BaseException: must pass through the library's own "except Exception" handlers
     pass
 
 
